@@ -76,10 +76,94 @@ class IR:
 
     # ---- post-dominators (immediate), per function; virtual exit = -1
     def ipdom(self, fn):
+        """immediate post-dominators; where a block has none because some path returns/panics early, the post-dominator
+        of the remaining (non-terminating) paths is used instead ("weak" join: early exits leave the region)."""
         name = fn["name"]
         r = self._ipdom.get(name)
         if r is not None:
             return r
+        strong = self._ipdom_of(fn, False)
+        weak = self._ipdom_of(fn, True)
+        r = [s if s >= 0 else w for s, w in zip(strong, weak)]
+        self._ipdom[name] = r
+        return r
+
+    def _weak_joins(self, fn):
+        """for every 2-way branch block B: the nearest block J such that every path leaving B either passes through J or
+        ends in a Return/Panic block first (the part of the CFG reachable from B without J is acyclic)."""
+        blocks = fn["blocks"]
+        n = len(blocks)
+        succs = [b["succs"] for b in blocks]
+        res = [-1] * n
+        for B in range(n):
+            if len(succs[B]) != 2:
+                continue
+            # BFS order of candidates
+            order, seen, q = [], {B}, list(succs[B])
+            for x in q:
+                seen.add(x)
+            qi = 0
+            while qi < len(q):
+                x = q[qi]
+                qi += 1
+                order.append(x)
+                for y in succs[x]:
+                    if y not in seen:
+                        seen.add(y)
+                        q.append(y)
+            order.append(B)
+
+            def reach(a):
+                r, stack = {a}, [a]
+                while stack:
+                    u = stack.pop()
+                    for v in succs[u]:
+                        if v not in r:
+                            r.add(v)
+                            stack.append(v)
+                return r
+            r0, r1 = reach(succs[B][0]), reach(succs[B][1])
+            for J in order:
+                if not succs[J] and J != B:
+                    continue  # terminal blocks are never joins
+                if J not in r0 or J not in r1:
+                    continue  # must be a meeting point of both arms
+                # acyclic check of region reachable from succs[B] avoiding J
+                color = {}
+                ok = True
+                reach_other = False
+
+                def dfs(u):
+                    nonlocal ok
+                    if u == J:
+                        return
+                    c = color.get(u)
+                    if c == 1:
+                        ok = False
+                        return
+                    if c == 2:
+                        return
+                    color[u] = 1
+                    for v in succs[u]:
+                        if v == B and J != B:
+                            ok = False
+                            return
+                        dfs(v)
+                        if not ok:
+                            return
+                    color[u] = 2
+                for s0 in succs[B]:
+                    dfs(s0)
+                    if not ok:
+                        break
+                if ok:
+                    res[B] = J
+                    break
+        return res
+
+    def _ipdom_of(self, fn, weak):
+        if weak:
+            return self._weak_joins(fn)
         blocks = fn["blocks"]
         n = len(blocks)
         EXIT = n
@@ -112,5 +196,4 @@ class IR:
                     ip = c
                     break
             res.append(-1 if ip is None or ip == EXIT else ip)
-        self._ipdom[name] = res
         return res
